@@ -227,7 +227,7 @@ def coq_codes(ctx, coq):
         lines = ["From Coq Require Import ZArith List Bool.", "Import ListNotations.",
                  "Require Import MD.Neigh.Model MD.Whole.Model MD.Whole.Run.", "Open Scope Z_scope.",
                  "Definition cases : list (wcase * list vec) := [", ";\n".join("(%s, %s)" % coq[k] for k in sh), "].",
-                 "Eval vm_compute in (7777, map (fun c => w_code (fst c) (snd c) * 8 + w_split_code (fst c)) cases)."]
+                 "Eval vm_compute in (7777, map (fun c => w_code (fst c) (snd c) * 16 + w_split_code (fst c)) cases)."]
         path = os.path.join(ctx.tmp, "wcodes_%d_%d.v" % (len(coq), si))
         with open(path, "w") as fh:
             fh.write("\n".join(lines) + "\n")
@@ -259,19 +259,33 @@ def coq_codes(ctx, coq):
 
 
 def run_impl_robust(ctx, script, cases, keys, chunk=400, crash_out=None):
-    """run the implementation on all cases; when the runner process dies (a crash inside a C kernel), bisect to
-    isolate the crashing cases and report them as {"err": "Crash"} instead of losing the whole batch"""
-    def go(cs, depth):
-        try:
-            return ctx.run_impl(script, {"cases": [{k: c.get(k) for k in keys} for c in cs]}, timeout=900)["out"]
-        except Exception as e:  # noqa: BLE001
-            if len(cs) == 1 or depth > 12:
-                return [dict(crash_out or {}, err="Crash", msg=str(e)[-300:]) for _ in cs]
-            h = len(cs) // 2
-            return go(cs[:h], depth + 1) + go(cs[h:], depth + 1)
-    outs = []
+    """run the implementation on all cases.  When the runner process dies or hangs (a crash / endless loop inside a
+    C kernel) the cases of that batch are re-run one by one, smallest first, until the first one that kills the
+    runner is found: it is reported as {"err": "Crash"}; the remaining cases of the batch are marked "NotRun"."""
+    def payload(cs):
+        return {"cases": [{k: c.get(k) for k in keys} for c in cs]}
+    outs = [None] * len(cases)
     for s0 in range(0, len(cases), chunk):
-        outs += go(cases[s0:s0 + chunk], 0)
+        idx = list(range(s0, min(s0 + chunk, len(cases))))
+        try:
+            res = ctx.run_impl(script, payload([cases[i] for i in idx]), timeout=900)["out"]
+            for i, o in zip(idx, res):
+                outs[i] = o
+            continue
+        except Exception as e:  # noqa: BLE001
+            ctx.log("implementation runner died on a batch (%s); isolating" % str(e)[-120:].replace("\n", " "))
+        found = False
+        for i in sorted(idx, key=lambda i: len(str(cases[i])))[:60]:
+            if found:
+                break
+            try:
+                outs[i] = ctx.run_impl(script, payload([cases[i]]), timeout=120)["out"][0]
+            except Exception as e:  # noqa: BLE001
+                outs[i] = dict(crash_out or {}, err="Crash", msg=str(e)[-300:])
+                found = True
+        for i in idx:
+            if outs[i] is None:
+                outs[i] = dict(crash_out or {}, err="NotRun")
     return outs
 
 
@@ -307,6 +321,9 @@ IMPL_KEYS = ("frames", "bonds", "mol_of", "api", "inplace", "make_whole", "ancho
 
 def run_cases(ctx, cases):
     outs = run_impl_robust(ctx, "whole_impl.py", cases, IMPL_KEYS, chunk=200)
+    keep = [i for i, o in enumerate(outs) if o.get("err") != "NotRun"]
+    cases = [cases[i] for i in keep]
+    outs = [outs[i] for i in keep]
     ctx.log("implementation ran on %d systems" % len(cases))
     jobs, coq, rec = [], [], {}
     for ci, (c, o) in enumerate(zip(cases, outs)):
@@ -325,7 +342,12 @@ def run_cases(ctx, cases):
     if errs:
         ctx.break_("correspondence:coqc-evaluation", "\n".join(errs))
     split_of = {jobs[k]: v % 8 for k, v in codes.items()}
-    code_of = {jobs[k]: v // 8 for k, v in codes.items()}
+    cert_bad = [jobs[k] for k, v in codes.items() if (v % 16) >= 8]
+    code_of = {jobs[k]: v // 16 for k, v in codes.items()}
+    if cert_bad:
+        ctx.break_("certificate:tree_order-fails-walk_ok",
+                   "the repaired bond walk does not pass the certificate of whole_fixed_order_partial on %d frames, e.g. bonds %s" % (
+                       len(cert_bad), cases[cert_bad[0][0]]["bonds"]))
     vals = list(code_of.values())
     n_frag = sum(1 for v in vals if v == 4)
     cur_ok = all(v in (0, 2, 4) for v in vals)
@@ -335,6 +357,7 @@ def run_cases(ctx, cases):
     extra["bond_order_variant_matching_impl"] = variant
     extra["frames_compared"] = extra.get("frames_compared", 0) + len(vals) - n_frag
     extra["frames_fragile_not_compared"] = extra.get("frames_fragile_not_compared", 0) + n_frag
+    extra["walk_ok_certificate_checked_frames"] = extra.get("walk_ok_certificate_checked_frames", 0) + len(vals) - len(cert_bad)
     ctx.log("frames: %d compared, %d fragile; codes %s" % (len(vals) - n_frag, n_frag, {v: vals.count(v) for v in sorted(set(vals))}))
     if any(v == 5 for v in vals):
         ctx.break_("correspondence:run-walk-inconsistent", "coq/Whole/Run.v disagrees with coq/Whole/Model.v")
@@ -436,7 +459,7 @@ FIXED_PROBES = [
 
 def correspond(ctx):
     quick = ctx.tier == "quick"
-    cases = [dict(c) for c in FIXED_PROBES] + [gen_case(ctx.rng) for _ in range(400 if quick else 6000)]
+    cases = [dict(c) for c in FIXED_PROBES] + [gen_case(ctx.rng) for _ in range(1500 if quick else 12000)]
     ctx.log("systems:", len(cases))
     run_cases(ctx, cases)
 
